@@ -156,11 +156,6 @@ def wrapToks (toks : List Token) : List Token :=
   | some (pre, r) => pre ++ w :: r ++ [e]
   | none => w :: toks ++ [e]
 
-/-- exceptions a parse can end with -/
-inductive Exc where
-  | multipleRoot | invalidClose | missedClose | invalidAttr
-  deriving Repr, Inhabited, DecidableEq
-
 inductive FeedResult where
   | doc (d : Doc) (secondPass : Bool)
   | raised (e : Exc)
